@@ -2,5 +2,6 @@
 import GlmVerif.Props.C02
 import GlmVerif.Props.C07
 import GlmVerif.Props.C08
+import GlmVerif.Props.C09
 import GlmVerif.Props.C10
 import GlmVerif.Props.C12
